@@ -245,10 +245,8 @@ Qed.
 
 Lemma plain_no_nul : forall c, plain c -> existsb (N.eqb 0) c = false.
 Proof.
-  intros c [_ H]. induction H; simpl; auto. destruct H as [_ [_ Z]].
-  destruct (N.eqb 0 x) eqn:E.
-  - apply N.eqb_eq in E. congruence.
-  - simpl. auto.
+  intros c [_ H]. induction H; [reflexivity|]. destruct H as [_ [_ Z]].
+  cbn [existsb]. rewrite IHForall. destruct x; [congruence|reflexivity].
 Qed.
 
 Lemma temp_comp_ok : comp_ok temp_name.
@@ -267,8 +265,431 @@ Proof.
   rewrite join_clean_plain in E by (apply Forall_app; split; auto).
   inversion E. exists cs. repeat split; auto.
   apply path_ok_app. split.
-  - rewrite Forall_forall in *. intros c Hin. split.
+  - unfold path_ok. apply Forall_forall. intros c Hin. rewrite Forall_forall in F, FP. split.
     + destruct (F c Hin) as [_ [LL _]]. apply N.leb_le. unfold lenN, name_max. lia.
     + apply plain_no_nul. auto.
-  - repeat constructor; auto. apply plain_no_nul. auto.
+  - constructor; [|constructor]. split; auto. apply plain_no_nul. auto.
 Qed.
+
+(* ------------------------------------------------------------------ one Put, alone *)
+
+Section Put.
+  Variable cfg : fscfg.
+  Variable env : wenv.
+  Variable d : list (list N).
+  Variable cs : list (list N).
+  Variable e : list N.
+  Hypothesis base_ok : path_ok (f_base cfg).
+  Hypothesis env_base : we_base env = f_base cfg.
+  Hypothesis env_dest : we_dest env = Some d.
+  Hypothesis d_shape : d = f_base cfg ++ cs ++ [e].
+  Hypothesis cs_ne : cs <> [].
+  Hypothesis d_ok : path_ok (cs ++ [e]).
+  Hypothesis name_ok : comp_ok (we_names env 0).
+
+  Definition stp : list (list N) := stage_path (f_base cfg) (we_names env 0).
+
+  Lemma stp_ok : path_ok stp.
+  Proof.
+    unfold stp, stage_path. apply path_ok_app. split; auto.
+    constructor. apply temp_comp_ok. constructor; auto.
+  Qed.
+
+  Lemma stp_nonnil : stp <> [].
+  Proof. unfold stp, stage_path. destruct (f_base cfg); discriminate. Qed.
+
+  Lemma stp_dirname : dirname stp = staging_dir (f_base cfg).
+  Proof.
+    unfold stp, stage_path, staging_dir.
+    replace (f_base cfg ++ [temp_name; we_names env 0]) with ((f_base cfg ++ [temp_name]) ++ [we_names env 0])
+      by (rewrite <- app_assoc; auto).
+    apply dirname_snoc.
+  Qed.
+
+  Lemma d_path_ok : path_ok d.
+  Proof. rewrite d_shape. apply path_ok_app. auto. Qed.
+
+  Lemma d_nonnil : d <> [].
+  Proof.
+    rewrite d_shape. intros X. apply app_eq_nil in X. destruct X as [_ X].
+    apply app_eq_nil in X. destruct X; discriminate.
+  Qed.
+
+  Lemma w_dest_d : w_dest env = d.
+  Proof. unfold w_dest. rewrite env_dest. auto. Qed.
+
+  (* the write loop *)
+  Lemma writes : forall rest done g, rest <> [] -> fs_lookup g stp = Some (File done) ->
+    exists g', reach env (length rest) (g, WWrite stp rest) (g', WClose stp None) /\
+               fs_lookup g' stp = Some (File (done ++ concat rest)) /\ same_except g g' stp.
+  Proof.
+    induction rest as [|c rest IH]; intros done g N L. congruence.
+    pose proof (exec_write_ok g stp c done L) as X.
+    destruct rest as [|c2 rest'].
+    - exists (fs_set g stp (File (done ++ c))). split; [|split].
+      + exact (reach_step env g (WWrite stp [c]) _ _ _ eq_refl X).
+      + rewrite lookup_set_same by apply stp_nonnil. simpl. rewrite app_nil_r. auto.
+      + intros p Hp. apply lookup_set_other. auto.
+    - destruct (IH (done ++ c) (fs_set g stp (File (done ++ c)))) as [g' [R [L' S]]].
+      + discriminate.
+      + apply lookup_set_same. apply stp_nonnil.
+      + exists g'. split; [|split].
+        * pose proof (reach_step env g (WWrite stp (c :: c2 :: rest')) _ _ _ eq_refl X) as R0.
+          replace (length (c :: c2 :: rest')) with (1 + length (c2 :: rest'))%nat by auto.
+          eapply reach_trans; [exact R0|]. simpl. exact R.
+        * rewrite L'. simpl. rewrite <- app_assoc. auto.
+        * intros p Hp. rewrite S by auto. apply lookup_set_other. auto.
+  Qed.
+
+  (* create, write everything, close *)
+  Lemma phase_write : forall f chunks, all_dirs f (staging_dir (f_base cfg)) -> fs_lookup f stp = None ->
+    exists g, reach env (length chunks + 2) (f, WCreate 0 chunks) (g, WLstatNew stp false) /\
+              fs_lookup g stp = Some (File (concat chunks)) /\ same_except f g stp.
+  Proof.
+    intros f chunks D L.
+    assert (X : sys_exec f (SCreat stp) = (fs_set f stp (File []), Ok RVUnit)).
+    { apply exec_creat_ok; auto. apply stp_nonnil. apply stp_ok. rewrite stp_dirname. auto. }
+    assert (R1 : reach env 1 (f, WCreate 0 chunks) (fs_set f stp (File []), after_create stp chunks)).
+    { assert (NX : w_next env (WCreate 0 chunks) = Some (SCreat stp)).
+      { simpl. rewrite env_base. reflexivity. }
+      pose proof (reach_step env f (WCreate 0 chunks) _ _ _ NX X) as R0.
+      simpl in R0. rewrite env_base in R0. exact R0. }
+    assert (CL : forall g, reach env 1 (g, WClose stp None) (g, WLstatNew stp false)).
+    { intros g. assert (Y : sys_exec g (SClose stp) = (g, Ok RVUnit)) by reflexivity.
+      pose proof (reach_step env g (WClose stp None) _ _ _ eq_refl Y) as R0.
+      simpl in R0. rewrite env_dest in R0. exact R0. }
+    destruct chunks as [|c rest].
+    - exists (fs_set f stp (File [])). split; [|split].
+      + replace (length (@nil (list N)) + 2)%nat with (1 + 1)%nat by auto.
+        eapply reach_trans; [exact R1|]. simpl. apply CL.
+      + apply lookup_set_same. apply stp_nonnil.
+      + intros p Hp. apply lookup_set_other. auto.
+    - destruct (writes (c :: rest) [] (fs_set f stp (File []))) as [g [R [L' S]]].
+      + discriminate.
+      + apply lookup_set_same. apply stp_nonnil.
+      + exists g. split; [|split].
+        * replace (length (c :: rest) + 2)%nat with (1 + (length (c :: rest) + 1))%nat by lia.
+          eapply reach_trans; [exact R1|]. eapply reach_trans; [exact R|]. apply CL.
+        * exact L'.
+        * intros p Hp. rewrite S by auto. apply lookup_set_other. auto.
+  Qed.
+
+  (* the missing directories: haveDir going down *)
+  Definition ups (E : list (list N)) (ms : list (list N)) : list (list (list N)) :=
+    map (fun i => E ++ firstn i ms) (seq 2 (length ms - 1)).
+
+  Lemma ups_snoc : forall E ms m, ms <> [] -> ups E (ms ++ [m]) = ups E ms ++ [E ++ ms ++ [m]].
+  Proof.
+    intros E ms m N. unfold ups. rewrite app_length. cbn [length].
+    assert (H : (length ms + 1 - 1 = S (length ms - 1))%nat) by (destruct ms; [congruence|simpl; lia]).
+    rewrite H. rewrite seq_S, map_app. cbn [map]. f_equal.
+    - apply map_ext_in. intros i Hi. apply in_seq in Hi. f_equal.
+      rewrite firstn_app. replace (i - length ms)%nat with 0%nat by lia. cbn [firstn]. apply app_nil_r.
+    - f_equal. f_equal. apply firstn_all2. rewrite app_length. cbn [length].
+      destruct ms; [congruence|simpl; lia].
+  Qed.
+
+  Lemma down : forall ms E stack g,
+    ms <> [] -> path_ok (E ++ ms) -> all_dirs g E ->
+    (forall i, (0 < i <= length ms)%nat -> fs_lookup g (E ++ firstn i ms) = None) ->
+    reach env (length ms) (g, WDirDown stp (E ++ ms) stack)
+          (fs_set g (E ++ firstn 1 ms) Dir, have_ret stp (Ok tt) (ups E ms ++ stack)).
+  Proof.
+    induction ms as [|m ms0 IH] using rev_ind; intros E stack g N P D A. congruence.
+    destruct ms0 as [|m0 ms1].
+    - (* one missing component: its parent exists, mkdir succeeds *)
+      simpl app. simpl firstn.
+      assert (X : sys_exec g (SMkdir (E ++ [m])) = (fs_set g (E ++ [m]) Dir, Ok RVUnit)).
+      { apply exec_mkdir_ok; auto. destruct E; discriminate. rewrite dirname_snoc. auto.
+        specialize (A 1%nat). simpl in A. apply A. lia. }
+      exact (reach_step env g (WDirDown stp (E ++ [m]) stack) _ _ _ eq_refl X).
+    - (* the parent is missing too: ENOENT, recurse on the parent, remember this one *)
+      assert (X : sys_exec g (SMkdir (E ++ (m0 :: ms1) ++ [m])) = (g, Err ENOENT)).
+      { replace (E ++ (m0 :: ms1) ++ [m]) with (E ++ m0 :: (ms1 ++ [m])) by auto.
+        apply exec_mkdir_missing; auto. destruct ms1; discriminate.
+        specialize (A 1%nat). simpl in A. apply A. rewrite app_length. simpl. lia. }
+      assert (DN : dirname (E ++ m0 :: ms1 ++ [m]) = E ++ m0 :: ms1).
+      { change (E ++ m0 :: ms1 ++ [m]) with (E ++ (m0 :: ms1) ++ [m]). rewrite app_assoc. apply dirname_snoc. }
+      assert (X' : reach env 1 (g, WDirDown stp (E ++ (m0 :: ms1) ++ [m]) stack)
+                     (g, WDirDown stp (E ++ m0 :: ms1) ((E ++ (m0 :: ms1) ++ [m]) :: stack))).
+      { pose proof (reach_step env g (WDirDown stp (E ++ (m0 :: ms1) ++ [m]) stack) _ _ _ eq_refl X) as X0.
+        simpl w_step in X0. rewrite DN in X0. exact X0. }
+      assert (R := IH E ((E ++ (m0 :: ms1) ++ [m]) :: stack) g).
+      rewrite app_length. cbn [length]. replace (S (length ms1) + 1)%nat with (1 + S (length ms1))%nat by lia.
+      eapply reach_trans; [exact X'|].
+      rewrite ups_snoc by discriminate. rewrite <- app_assoc.
+      change (firstn 1 ((m0 :: ms1) ++ [m])) with (firstn 1 (m0 :: ms1)).
+      apply R.
+      + discriminate.
+      + rewrite app_assoc in P. apply path_ok_app in P. tauto.
+      + auto.
+      + intros i Hi. specialize (A i). rewrite firstn_app in A.
+        replace (i - length (m0 :: ms1))%nat with 0%nat in A by lia. simpl firstn at 2 in A.
+        rewrite app_nil_r in A. apply A. rewrite app_length. simpl in *. lia.
+  Qed.
+
+  Lemma firstn_succ_snoc : forall {A} (l : list A) j, (j < length l)%nat ->
+    exists x, firstn (S j) l = firstn j l ++ [x].
+  Proof.
+    induction l; intros j H; simpl in H. lia.
+    destruct j. exists a. reflexivity.
+    destruct (IHl j) as [x E]. lia. exists x.
+    change (firstn (S (S j)) (a :: l)) with (a :: firstn (S j) l). rewrite E. reflexivity.
+  Qed.
+
+  Lemma app_firstn_neq : forall (E : list (list N)) ms i j, (i <= length ms)%nat -> (j <= length ms)%nat -> i <> j ->
+    E ++ firstn i ms <> E ++ firstn j ms.
+  Proof.
+    intros E ms i j Hi Hj N X. apply app_inv_head in X.
+    assert (L : length (firstn i ms) = length (firstn j ms)) by congruence.
+    rewrite !firstn_length in L. lia.
+  Qed.
+
+  (* haveDir coming back up: the remembered directories are made one after the other *)
+  Lemma up : forall E ms k j g stack,
+    (1 <= j)%nat -> (j + k <= length ms)%nat -> path_ok (E ++ ms) ->
+    all_dirs g (E ++ firstn j ms) ->
+    (forall i, (j < i <= j + k)%nat -> fs_lookup g (E ++ firstn i ms) = None) ->
+    exists g', reach env k (g, have_ret stp (Ok tt) (map (fun i => E ++ firstn i ms) (seq (S j) k) ++ stack))
+                     (g', have_ret stp (Ok tt) stack) /\
+               all_dirs g' (E ++ firstn (j + k) ms) /\
+               (forall p, (forall i, (j < i <= j + k)%nat -> p <> E ++ firstn i ms) -> fs_lookup g' p = fs_lookup g p).
+  Proof.
+    intros E ms k. induction k as [|k IH]; intros j g stack J K P D A.
+    - exists g. simpl. rewrite Nat.add_0_r. split; [apply reach_refl|]. split; auto.
+    - cbn [seq map app].
+      destruct (firstn_succ_snoc ms j) as [x FX]. lia.
+      set (q := E ++ firstn (S j) ms).
+      assert (QN : q <> []). { unfold q. rewrite FX. destruct E; destruct (firstn j ms); discriminate. }
+      assert (QD : dirname q = E ++ firstn j ms).
+      { unfold q. rewrite FX. rewrite app_assoc. apply dirname_snoc. }
+      assert (QP : path_ok q).
+      { unfold q. apply path_ok_app in P. destruct P as [P1 P2]. apply path_ok_app. split; auto.
+        unfold path_ok. apply Forall_firstn. auto. }
+      assert (X : sys_exec g (SMkdir q) = (fs_set g q Dir, Ok RVUnit)).
+      { apply exec_mkdir_ok; auto. rewrite QD. auto. apply A. lia. }
+      pose proof (reach_step env g (WDirUp stp q (map (fun i => E ++ firstn i ms) (seq (S (S j)) k) ++ stack))
+                    _ _ _ eq_refl X) as R0.
+      cbn [w_step strip] in R0.
+      destruct (IH (S j) (fs_set g q Dir) stack) as [g' [R [D' F']]].
+      + lia.
+      + lia.
+      + auto.
+      + unfold q in *. rewrite FX. rewrite app_assoc. apply all_dirs_snoc.
+        * eapply all_dirs_transfer; [|exact D]. intros n Hn. apply lookup_set_other.
+          rewrite <- app_assoc. rewrite <- FX. intros X0.
+          assert (L : length (E ++ firstn (S j) ms) = length (firstn n (E ++ firstn j ms))) by congruence.
+          rewrite firstn_length, !app_length, !firstn_length in L. lia.
+        * rewrite <- app_assoc, <- FX. apply lookup_set_same. auto.
+      + intros i Hi. rewrite lookup_set_other. apply A. lia.
+        unfold q. apply app_firstn_neq; lia.
+      + exists g'. split; [|split].
+        * replace (S k) with (1 + k)%nat by lia. eapply reach_trans; [exact R0|exact R].
+        * replace (j + S k)%nat with (S j + k)%nat by lia. exact D'.
+        * intros p Hp. rewrite F'. apply lookup_set_other. intros X0. apply (Hp (S j)). lia. auto.
+          intros i Hi. apply Hp. lia.
+  Qed.
+  Lemma firstn_skipn_add : forall {A} (l : list A) j i, firstn j l ++ firstn i (skipn j l) = firstn (j + i) l.
+  Proof.
+    induction l; intros j i; simpl.
+    - destruct j; destruct i; reflexivity.
+    - destruct j; simpl; auto. f_equal. apply IHl.
+  Qed.
+
+  (* where the chain of existing directories towards the destination stops *)
+  Lemma split_point : forall f, fs_wf f -> all_dirs f (f_base cfg) ->
+    (forall j c, (0 < j <= length cs)%nat -> fs_lookup f (f_base cfg ++ firstn j cs) <> Some (File c)) ->
+    all_dirs f (f_base cfg ++ cs) \/
+    exists j, (j < length cs)%nat /\ all_dirs f (f_base cfg ++ firstn j cs) /\
+              forall i, (j < i <= length cs)%nat -> fs_lookup f (f_base cfg ++ firstn i cs) = None.
+  Proof.
+    intros f W B. clear cs_ne d_ok d_shape. induction cs as [|c cs' IH] using rev_ind; intros NF.
+    - left. rewrite app_nil_r. auto.
+    - destruct (fs_lookup f (f_base cfg ++ cs' ++ [c])) as [[c0|]|] eqn:L.
+      + exfalso. apply (NF (length (cs' ++ [c])) c0). rewrite app_length. simpl. lia.
+        rewrite firstn_all. auto.
+      + left. apply wf_all_dirs; auto.
+      + right. destruct IH as [A|[j [J [A Z]]]].
+        * intros j c0 Hj. specialize (NF j c0). rewrite firstn_app in NF.
+          replace (j - length cs')%nat with 0%nat in NF by lia. simpl in NF. rewrite app_nil_r in NF.
+          apply NF. rewrite app_length. simpl. lia.
+        * exists (length cs'). rewrite app_length. simpl. split. lia. split.
+          -- rewrite firstn_app, firstn_all, Nat.sub_diag. simpl. rewrite app_nil_r. auto.
+          -- intros i Hi. assert (i = length cs' + 1)%nat by lia. subst i.
+             rewrite firstn_all2 by (rewrite app_length; simpl; lia). auto.
+        * exists j. rewrite app_length. simpl. split. lia. split.
+          -- rewrite firstn_app. replace (j - length cs')%nat with 0%nat by lia. simpl. rewrite app_nil_r. auto.
+          -- intros i Hi. destruct (Nat.eq_dec i (length cs' + 1)).
+             ++ subst i. rewrite firstn_all2 by (rewrite app_length; simpl; lia). auto.
+             ++ rewrite firstn_app. replace (i - length cs')%nat with 0%nat by lia. simpl. rewrite app_nil_r.
+                apply Z. lia.
+  Qed.
+
+  (* what one successful put does to the file system *)
+  Record put_post (f f' : fs) (content : list N) : Prop := {
+    pp_dest : fs_lookup f' d = Some (File content);
+    pp_stage : fs_lookup f' stp = None;
+    pp_dirs : all_dirs f' (f_base cfg ++ cs);
+    pp_frame : forall p, p <> d -> p <> stp -> (forall j, (0 < j <= length cs)%nat -> p <> f_base cfg ++ firstn j cs) ->
+                 fs_lookup f' p = fs_lookup f p;
+    pp_old_dirs : forall j, (0 < j <= length cs)%nat -> fs_lookup f (f_base cfg ++ firstn j cs) <> None ->
+                 fs_lookup f' (f_base cfg ++ firstn j cs) = fs_lookup f (f_base cfg ++ firstn j cs)
+  }.
+
+  Lemma d_dirname : dirname d = f_base cfg ++ cs.
+  Proof. rewrite d_shape. rewrite app_assoc. apply dirname_snoc. Qed.
+
+  Lemma dirs_neq_d : forall j, f_base cfg ++ firstn j cs <> d.
+  Proof.
+    intros j X. rewrite d_shape in X. apply app_inv_head in X.
+    assert (L : length (firstn j cs) = length (cs ++ [e])) by congruence.
+    rewrite firstn_length, app_length in L. simpl in L. lia.
+  Qed.
+
+  Theorem put_runs : forall f chunks,
+    fs_wf f -> all_dirs f (f_base cfg) -> fs_lookup f (staging_dir (f_base cfg)) = Some Dir ->
+    fs_lookup f stp = None -> fs_lookup f d <> Some Dir ->
+    (forall j c, (0 < j <= length cs)%nat -> fs_lookup f (f_base cfg ++ firstn j cs) <> Some (File c)) ->
+    (forall j, (j <= length cs)%nat -> stp <> f_base cfg ++ firstn j cs) -> stp <> d ->
+    exists f', reach env (length chunks + 2 * length cs + 6) (f, WCreate 0 chunks) (f', WDone (Ok tt)) /\
+               put_post f f' (concat chunks).
+  Proof.
+    intros f chunks W B T FR ND NF SD SDd.
+    assert (TD : all_dirs f (staging_dir (f_base cfg))).
+    { unfold staging_dir. apply all_dirs_snoc; auto. }
+    destruct (phase_write f chunks TD FR) as [g [R1 [LG SG]]].
+    assert (FRD : fs_lookup f stp <> Some Dir) by (rewrite FR; discriminate).
+    assert (TR : forall q, all_dirs f q -> all_dirs g q).
+    { intros q. eapply all_dirs_same_except; eauto. }
+    assert (STD : all_dirs g (dirname stp)). { rewrite stp_dirname. auto. }
+    assert (GD : fs_lookup g d = fs_lookup f d) by (apply SG; auto).
+    pose proof d_nonnil as DN. pose proof d_path_ok as DP. pose proof stp_nonnil as SN. pose proof stp_ok as SP.
+    (* the final rename, from any state in which the parent chain exists *)
+    assert (FIN : forall h second, fs_lookup h stp = Some (File (concat chunks)) -> all_dirs h (dirname stp) ->
+              all_dirs h (f_base cfg ++ cs) -> fs_lookup h d <> Some Dir ->
+              reach env 2 (h, WLstatNew stp second)
+                    (fs_set (fs_remove h stp) d (File (concat chunks)), WDone (Ok tt))).
+    { intros h second LH SH DH NH.
+      assert (X1 : sys_exec h (SLstat d) = (h, match fs_lookup h d with Some n => Ok (RVNode n) | None => Err ENOENT end)).
+      { apply exec_lstat_ok; auto. rewrite d_dirname. auto. }
+      assert (NX1 : w_next env (WLstatNew stp second) = Some (SLstat d)) by (simpl; rewrite w_dest_d; auto).
+      pose proof (reach_step env h _ _ _ _ NX1 X1) as R.
+      assert (ST : w_step env (WLstatNew stp second)
+                     (match fs_lookup h d with Some n => Ok (RVNode n) | None => Err ENOENT end) = WRename stp second).
+      { simpl. destruct (fs_lookup h d) as [[c|]|]; auto. congruence. }
+      rewrite ST in R.
+      assert (X2 : sys_exec h (SRename stp d) = (fs_set (fs_remove h stp) d (File (concat chunks)), Ok RVUnit)).
+      { apply exec_rename_ok; auto. rewrite d_dirname. auto. }
+      assert (NX2 : w_next env (WRename stp second) = Some (SRename stp d)) by (simpl; rewrite w_dest_d; auto).
+      pose proof (reach_step env h _ _ _ _ NX2 X2) as R2.
+      simpl in R2. replace 2%nat with (1 + 1)%nat by auto. eapply reach_trans; eauto. }
+    destruct (split_point f W B NF) as [AD|[j [J [AD Z]]]].
+    - (* every shard directory exists: Lstat, rename *)
+      assert (NG : fs_lookup g d <> Some Dir) by (rewrite GD; auto).
+      pose proof (FIN g false LG STD (TR _ AD) NG) as R2.
+      exists (fs_set (fs_remove g stp) d (File (concat chunks))). split.
+      + eapply reach_weaken; [|eapply reach_trans; [exact R1|exact R2]]. lia.
+      + constructor.
+        * apply lookup_set_same; auto.
+        * rewrite lookup_set_other by auto. apply lookup_remove_same; auto.
+        * eapply all_dirs_transfer; [|exact (TR _ AD)]. intros n Hn.
+          rewrite lookup_set_other. apply lookup_remove_other.
+          -- intros X. apply FRD. rewrite X. apply AD. auto.
+          -- intros X. assert (L : length d = length (firstn n (f_base cfg ++ cs))) by congruence.
+             rewrite d_shape, firstn_length, !app_length in L. simpl in L. rewrite !app_length in Hn. lia.
+        * intros p P1 P2 P3. rewrite lookup_set_other by auto. rewrite lookup_remove_other by auto. apply SG. auto.
+        * intros j Hj _. rewrite lookup_set_other by (apply not_eq_sym; apply dirs_neq_d).
+          rewrite lookup_remove_other by (apply SD; lia). apply SG. apply not_eq_sym. apply SD. lia.
+    - (* directories j+1 .. are missing *)
+      set (E := f_base cfg ++ firstn j cs). set (ms := skipn j cs).
+      assert (MS : ms <> []). { unfold ms. intros X. assert (L := skipn_length j cs). rewrite X in L. simpl in L. lia. }
+      assert (EMS : E ++ ms = f_base cfg ++ cs). { unfold E, ms. rewrite <- app_assoc. rewrite firstn_skipn. auto. }
+      assert (EI : forall i, E ++ firstn i ms = f_base cfg ++ firstn (j + i) cs).
+      { intros i. unfold E, ms. rewrite <- app_assoc. rewrite firstn_skipn_add. auto. }
+      assert (LMS : length ms = (length cs - j)%nat) by (unfold ms; apply skipn_length).
+      assert (PEM : path_ok (E ++ ms)).
+      { rewrite EMS. apply path_ok_app. split; auto. apply path_ok_app in d_ok. tauto. }
+      assert (ZG : forall i, (0 < i <= length ms)%nat -> fs_lookup g (E ++ firstn i ms) = None).
+      { intros i Hi. rewrite EI. rewrite SG. apply Z. lia. apply not_eq_sym. apply SD. lia. }
+      destruct ms as [|m ms'] eqn:MSE; try congruence.
+      (* Lstat(new): ENOENT; rename: ENOENT *)
+      assert (DSH : d = E ++ m :: (ms' ++ [e])).
+      { rewrite d_shape. rewrite app_assoc. rewrite <- EMS. rewrite <- app_assoc. reflexivity. }
+      assert (PD : path_ok (E ++ m :: ms' ++ [e])) by (rewrite <- DSH; auto).
+      assert (M1 : fs_lookup g (E ++ [m]) = None). { apply (ZG 1%nat). simpl. lia. }
+      assert (X1 : sys_exec g (SLstat d) = (g, Err ENOENT)).
+      { rewrite DSH. apply exec_lstat_missing; auto. destruct ms'; discriminate. }
+      assert (NX1 : w_next env (WLstatNew stp false) = Some (SLstat d)) by (simpl; rewrite w_dest_d; auto).
+      pose proof (reach_step env g _ _ _ _ NX1 X1) as R2. cbn [w_step] in R2.
+      assert (X2 : sys_exec g (SRename stp d) = (g, Err ENOENT)).
+      { rewrite DSH. eapply exec_rename_missing; eauto. destruct ms'; discriminate. }
+      assert (NX2 : w_next env (WRename stp false) = Some (SRename stp d)) by (simpl; rewrite w_dest_d; auto).
+      pose proof (reach_step env g _ _ _ _ NX2 X2) as R3.
+      cbn [w_step strip after_rename negb andb is_enoent] in R3. rewrite w_dest_d, d_dirname in R3.
+      rewrite <- EMS in R3.
+      (* haveDir *)
+      pose proof (down (m :: ms') E [] g MS PEM (TR _ AD) ZG) as R4. rewrite app_nil_r in R4.
+      cbn [firstn] in R4.
+      set (g1 := fs_set g (E ++ [m]) Dir) in *.
+      assert (UPS : ups E (m :: ms') = map (fun i => E ++ firstn i (m :: ms')) (seq 2 (length ms'))).
+      { unfold ups. simpl. rewrite Nat.sub_0_r. auto. }
+      rewrite UPS in R4.
+      destruct (up E (m :: ms') (length ms') 1 g1 []) as [g2 [R5 [D5 F5]]].
+      + lia.
+      + simpl. lia.
+      + auto.
+      + apply all_dirs_snoc.
+        * eapply all_dirs_transfer; [|exact (TR _ AD)]. intros n Hn. apply lookup_set_other.
+          intros X. assert (L : length (E ++ [m]) = length (firstn n E)) by congruence.
+          rewrite firstn_length, app_length in L. simpl in L. lia.
+        * apply lookup_set_same. destruct E; discriminate.
+      + intros i Hi. unfold g1. rewrite lookup_set_other. apply ZG. simpl. lia.
+        change (E ++ [m]) with (E ++ firstn 1 (m :: ms')). apply app_firstn_neq; simpl; lia.
+      + rewrite app_nil_r in R5. cbn [have_ret] in R5.
+        replace (1 + length ms')%nat with (length (m :: ms')) in D5 by auto.
+        rewrite firstn_all in D5. rewrite EMS in D5.
+        (* nothing but the new directories changed between g and g2 *)
+        assert (F2 : forall p, (forall i, (0 < i <= length (m :: ms'))%nat -> p <> E ++ firstn i (m :: ms')) ->
+                       fs_lookup g2 p = fs_lookup g p).
+        { intros p Hp. rewrite F5. unfold g1. apply lookup_set_other. apply not_eq_sym.
+          apply (Hp 1%nat). simpl. lia.
+          intros i Hi. apply Hp. simpl in *. lia. }
+        assert (NE : forall p, fs_lookup g p <> None -> (forall i, (0 < i <= length (m :: ms'))%nat -> p <> E ++ firstn i (m :: ms'))).
+        { intros p Hp i Hi X. subst p. rewrite ZG in Hp by auto. congruence. }
+        assert (L2 : fs_lookup g2 stp = Some (File (concat chunks))).
+        { rewrite F2. auto. apply NE. rewrite LG. discriminate. }
+        assert (DG : fs_lookup g d = None).
+        { rewrite DSH. change (E ++ m :: ms' ++ [e]) with (E ++ [m] ++ (ms' ++ [e])). rewrite app_assoc.
+          rewrite SG.
+          - apply wf_absent_ext; auto. destruct E; discriminate.
+            rewrite <- SG. auto. change (E ++ [m]) with (E ++ firstn 1 (m :: ms')). rewrite EI.
+            apply not_eq_sym. apply SD. lia.
+          - rewrite <- app_assoc. change (E ++ [m] ++ ms' ++ [e]) with (E ++ m :: ms' ++ [e]). rewrite <- DSH. auto. }
+        assert (D2 : fs_lookup g2 d = None).
+        { rewrite F2. auto. intros i Hi. rewrite EI. apply not_eq_sym. apply dirs_neq_d. }
+        assert (STD2 : all_dirs g2 (dirname stp)).
+        { eapply all_dirs_transfer; [|exact STD]. intros n Hn. apply F2. apply NE.
+          rewrite STD by auto. discriminate. }
+        assert (N2 : fs_lookup g2 d <> Some Dir) by (rewrite D2; discriminate).
+        pose proof (FIN g2 true L2 STD2 D5 N2) as R6.
+        exists (fs_set (fs_remove g2 stp) d (File (concat chunks))). split.
+        * eapply reach_weaken; [|eapply reach_trans; [exact R1|eapply reach_trans; [exact R2|
+             eapply reach_trans; [exact R3|eapply reach_trans; [exact R4|eapply reach_trans; [exact R5|exact R6]]]]]].
+          simpl length. simpl in LMS. lia.
+        * constructor.
+          -- apply lookup_set_same; auto.
+          -- rewrite lookup_set_other by auto. apply lookup_remove_same; auto.
+          -- eapply all_dirs_transfer; [|exact D5]. intros n Hn.
+             rewrite lookup_set_other. apply lookup_remove_other.
+             ++ intros X. rewrite X in L2. rewrite D5 in L2 by auto. discriminate.
+             ++ intros X. assert (L : length d = length (firstn n (f_base cfg ++ cs))) by congruence.
+                rewrite d_shape, firstn_length, !app_length in L. simpl in L. rewrite !app_length in Hn. lia.
+          -- intros p P1 P2 P3. rewrite lookup_set_other by auto. rewrite lookup_remove_other by auto.
+             rewrite F2. apply SG. auto.
+             intros i Hi. rewrite EI. apply P3. simpl in Hi, LMS. lia.
+          -- intros i Hi HN. rewrite lookup_set_other by (apply not_eq_sym; apply dirs_neq_d).
+             rewrite lookup_remove_other by (apply SD; lia).
+             rewrite F2. apply SG. apply not_eq_sym. apply SD. lia.
+             apply NE. rewrite SG. auto. apply not_eq_sym. apply SD. lia.
+  Qed.
+End Put.
